@@ -734,6 +734,26 @@ func (cx *c24Ctx) ruleR1() {
 		}
 	}
 	r.Count("middleware_delegation_sites", n)
+	// the request URL must not be rewritten between the decision and the dispatch
+	nw := 0
+	for _, f := range kit.WithClosures(cx.mw) {
+		kit.Instrs(f, func(in ssa.Instruction) {
+			st, ok := in.(*ssa.Store)
+			if !ok {
+				return
+			}
+			fa, ok := st.Addr.(*ssa.FieldAddr)
+			if !ok {
+				return
+			}
+			fld := kit.FieldOfAddr(fa)
+			if c24Named(fa.X.Type(), "net/url", "URL") || (c24Named(fa.X.Type(), "net/http", "Request") && fld != nil && (fld.Name() == "URL" || fld.Name() == "RequestURI")) {
+				nw++
+				r.Violation("C24.R1", fmt.Sprintf("%s request URL rewritten #%d", kit.FuncName(f), nw), p.Pos(st.Pos()),
+					"the auth middleware modifies the request URL: the path that was judged (exempt or not) is not the path the mux dispatches, so a non-exempt endpoint can be reached through an exempt spelling")
+			}
+		})
+	}
 	r.Require(n >= 1, "anchor-unresolved: the auth middleware %s never invokes the wrapped handler", kit.FuncName(cx.mw))
 	// ServeHTTP delegations elsewhere in the package are listed (they are behind the wrapper
 	// as long as R3 holds)
@@ -846,6 +866,197 @@ func (cx *c24Ctx) mapIsGlobal(v ssa.Value, g *ssa.Global) bool {
 
 // ---------------------------------------------------------------- R4
 
+// c24TokEnv: which SSA values of the function under examination are the presented token and
+// which are digests of the whole token (extended when a helper is entered).
+type c24TokEnv struct {
+	tok map[ssa.Value]bool
+	dig map[ssa.Value]bool
+}
+
+func (e *c24TokEnv) fromTok(x ssa.Value) bool {
+	return kit.G8Derives(x, func(y ssa.Value) bool { return e.tok[y] || e.dig[y] })
+}
+
+// fullDigest: v is (a full slice / load of) a crypto digest of the whole token, or a value
+// already known as such.
+func (e *c24TokEnv) fullDigest(v ssa.Value) bool {
+	if sl, ok := v.(*ssa.Slice); ok {
+		if sl.Low != nil || sl.High != nil || sl.Max != nil {
+			return false
+		}
+		v = sl.X
+	}
+	if e.dig[v] {
+		return true
+	}
+	if u, ok := v.(*ssa.UnOp); ok && u.Op == token.MUL {
+		v = u.X
+	}
+	isDigest := func(x ssa.Value) bool {
+		if e.dig[x] {
+			return true
+		}
+		c, ok := x.(*ssa.Call)
+		if !ok || len(c.Call.Args) == 0 {
+			return false
+		}
+		cal := kit.CalleeOf(c)
+		if !strings.HasPrefix(cal.Pkg, "crypto/") && !strings.HasPrefix(cal.Pkg, "golang.org/x/crypto/") {
+			return false
+		}
+		a := c.Call.Args[0]
+		if cv, ok := a.(*ssa.Convert); ok {
+			a = cv.X
+		}
+		return e.tok[a]
+	}
+	if isDigest(v) {
+		return true
+	}
+	a, ok := v.(*ssa.Alloc)
+	if !ok || a.Referrers() == nil {
+		return false
+	}
+	n, good := 0, 0
+	for _, ref := range *a.Referrers() {
+		if st, ok := ref.(*ssa.Store); ok && st.Addr == a {
+			n++
+			if isDigest(st.Val) {
+				good++
+			}
+		}
+	}
+	return n >= 1 && n == good
+}
+
+func c24IsHashLoad(x ssa.Value) bool {
+	return kit.G8Derives(x, func(y ssa.Value) bool {
+		_, ok := kit.G8LoadOfField(y, c24Pkg, "ServerConfig", "TokenHash")
+		return ok
+	})
+}
+
+func (cx *c24Ctx) bcryptFact(env *c24TokEnv) func(kit.G8Fact) bool {
+	return func(f kit.G8Fact) bool {
+		if !f.Nil || !f.Pol {
+			return false
+		}
+		c, ok := f.V.(*ssa.Call)
+		if !ok || !kit.CalleeOf(c).Is("golang.org/x/crypto/bcrypt", "", "CompareHashAndPassword") {
+			return false
+		}
+		pw := c.Call.Args[1]
+		if cv, ok := pw.(*ssa.Convert); ok {
+			pw = cv.X
+		}
+		return c24IsHashLoad(c.Call.Args[0]) && env.tok[pw]
+	}
+}
+
+// validatorAccept: facts under which the validator may answer true. cacheFields collects the
+// Server fields used as digest cache.
+func (cx *c24Ctx) validatorAccept(env *c24TokEnv, cacheFields map[*types.Var]bool, depth int) func(kit.G8Fact) bool {
+	bcryptOK := cx.bcryptFact(env)
+	var acc func(f kit.G8Fact) bool
+	acc = func(f kit.G8Fact) bool {
+		if bcryptOK(f) {
+			return true
+		}
+		if f.Nil {
+			return false
+		}
+		var a, b ssa.Value
+		switch x := f.V.(type) {
+		case *ssa.BinOp:
+			k, isK := kit.ConstInt(x.Y)
+			if c, ok := x.X.(*ssa.Call); ok && isK && kit.CalleeOf(c).Is("crypto/subtle", "", "ConstantTimeCompare") {
+				if !((x.Op == token.EQL && k == 1 && f.Pol) || (x.Op == token.NEQ && k == 1 && !f.Pol)) {
+					return false
+				}
+				a, b = c.Call.Args[0], c.Call.Args[1]
+			} else if (x.Op == token.EQL && f.Pol) || (x.Op == token.NEQ && !f.Pol) {
+				a, b = x.X, x.Y
+			} else {
+				return false
+			}
+		case *ssa.Call:
+			cal := kit.CalleeOf(x)
+			if f.Pol && (cal.Is("bytes", "", "Equal") || cal.Is("crypto/hmac", "", "Equal")) {
+				a, b = x.Call.Args[0], x.Call.Args[1]
+				break
+			}
+			// package-local bool helper fed with the token or its digest
+			if cal.Static == nil || cal.Static.Blocks == nil || kit.FuncPkgPath(cal.Static) != kit.PkgPath(c24Pkg) || cx.validators[cal.Static] || depth >= 2 {
+				return false
+			}
+			res := cal.Static.Signature.Results()
+			if res.Len() != 1 || !types.Identical(res.At(0).Type(), types.Typ[types.Bool]) {
+				return false
+			}
+			sub := &c24TokEnv{tok: map[ssa.Value]bool{}, dig: map[ssa.Value]bool{}}
+			for i, arg := range x.Call.Args {
+				if i >= len(cal.Static.Params) {
+					break
+				}
+				raw := arg
+				if cv, ok := raw.(*ssa.Convert); ok {
+					raw = cv.X
+				}
+				switch {
+				case env.tok[raw]:
+					sub.tok[cal.Static.Params[i]] = true
+				case c24IsArrayOrSlice(arg.Type()) && env.fullDigest(arg):
+					sub.dig[cal.Static.Params[i]] = true
+				}
+			}
+			if len(sub.tok)+len(sub.dig) == 0 {
+				return false
+			}
+			ws := kit.G8Witnesses(cal.Static, 0, f.Pol)
+			if len(ws) == 0 {
+				return false
+			}
+			subAcc := cx.validatorAccept(sub, cacheFields, depth+1)
+			for _, w := range ws {
+				if !w.Passes(subAcc) {
+					return false
+				}
+			}
+			return true
+		default:
+			return false
+		}
+		fieldOf := func(v ssa.Value) *types.Var {
+			var hit *types.Var
+			kit.G8Derives(v, func(y ssa.Value) bool {
+				if fa, ok := y.(*ssa.FieldAddr); ok && c24Named(fa.X.Type(), kit.PkgPath(c24Pkg), "Server") {
+					hit = kit.FieldOfAddr(fa)
+					return true
+				}
+				return false
+			})
+			return hit
+		}
+		if env.fromTok(b) && !env.fromTok(a) {
+			a, b = b, a
+		}
+		if !env.fromTok(a) || env.fromTok(b) {
+			return false
+		}
+		// the cache must be keyed by the digest of the whole token and compared in full
+		if !env.fullDigest(a) || !c24FullValue(b) {
+			return false
+		}
+		fld := fieldOf(b)
+		if fld == nil || fld.Name() == "cfg" {
+			return false // comparing the token with the configured hash itself is not authentication by bcrypt
+		}
+		cacheFields[fld] = true
+		return true
+	}
+	return acc
+}
+
 func (cx *c24Ctx) ruleR4() {
 	p, r := cx.p, cx.r
 	var vs []*ssa.Function
@@ -864,78 +1075,10 @@ func (cx *c24Ctx) ruleR4() {
 		if !r.Require(tok != nil, "anchor-unresolved: validator %s has no string token parameter", vname) {
 			continue
 		}
-		fromTok := func(x ssa.Value) bool { return kit.G8Derives(x, func(y ssa.Value) bool { return y == tok }) }
-		isHash := func(x ssa.Value) bool {
-			return kit.G8Derives(x, func(y ssa.Value) bool {
-				_, ok := kit.G8LoadOfField(y, c24Pkg, "ServerConfig", "TokenHash")
-				return ok
-			})
-		}
-		bcryptOK := func(f kit.G8Fact) bool {
-			if !f.Nil || !f.Pol {
-				return false
-			}
-			c, ok := f.V.(*ssa.Call)
-			if !ok || !kit.CalleeOf(c).Is("golang.org/x/crypto/bcrypt", "", "CompareHashAndPassword") {
-				return false
-			}
-			return isHash(c.Call.Args[0]) && fromTok(c.Call.Args[1])
-		}
+		env := &c24TokEnv{tok: map[ssa.Value]bool{tok: true}, dig: map[ssa.Value]bool{}}
+		bcryptOK := cx.bcryptFact(env)
 		cacheFields := map[*types.Var]bool{}
-		// equality of a token-derived value with a Server field
-		cacheEq := func(f kit.G8Fact) bool {
-			if f.Nil {
-				return false
-			}
-			var a, b ssa.Value
-			switch x := f.V.(type) {
-			case *ssa.BinOp:
-				// subtle.ConstantTimeCompare(a,b) == 1, or a == b on comparable values
-				k, isK := kit.ConstInt(x.Y)
-				if c, ok := x.X.(*ssa.Call); ok && isK && kit.CalleeOf(c).Is("crypto/subtle", "", "ConstantTimeCompare") {
-					if !((x.Op == token.EQL && k == 1 && f.Pol) || (x.Op == token.NEQ && k == 1 && !f.Pol)) {
-						return false
-					}
-					a, b = c.Call.Args[0], c.Call.Args[1]
-				} else if (x.Op == token.EQL && f.Pol) || (x.Op == token.NEQ && !f.Pol) {
-					a, b = x.X, x.Y
-				} else {
-					return false
-				}
-			case *ssa.Call:
-				cal := kit.CalleeOf(x)
-				if !f.Pol || !(cal.Is("bytes", "", "Equal") || cal.Is("crypto/hmac", "", "Equal")) {
-					return false
-				}
-				a, b = x.Call.Args[0], x.Call.Args[1]
-			default:
-				return false
-			}
-			fieldOf := func(v ssa.Value) *types.Var {
-				var hit *types.Var
-				kit.G8Derives(v, func(y ssa.Value) bool {
-					if fa, ok := y.(*ssa.FieldAddr); ok && c24Named(fa.X.Type(), kit.PkgPath(c24Pkg), "Server") {
-						hit = kit.FieldOfAddr(fa)
-						return true
-					}
-					return false
-				})
-				return hit
-			}
-			if fromTok(b) && !fromTok(a) {
-				a, b = b, a
-			}
-			if !fromTok(a) || fromTok(b) {
-				return false
-			}
-			fld := fieldOf(b)
-			if fld == nil || fld.Name() == "cfg" {
-				return false // comparing the token with the configured hash itself is not authentication by bcrypt
-			}
-			cacheFields[fld] = true
-			return true
-		}
-		acc := func(f kit.G8Fact) bool { return bcryptOK(f) || cacheEq(f) }
+		acc := cx.validatorAccept(env, cacheFields, 0)
 		ws := kit.G8Witnesses(v, 0, true)
 		r.Count("validator_true_returns", len(ws))
 		if len(ws) == 0 {
@@ -943,10 +1086,10 @@ func (cx *c24Ctx) ruleR4() {
 		}
 		for i, w := range ws {
 			r.Decide(w.Passes(acc), "C24.R4", fmt.Sprintf("%s true-return #%d", vname, i+1), p.Pos(w.Pos()),
-				"true only after bcrypt success or a cache hit",
-				"the validator returns true on a path without bcrypt.CompareHashAndPassword(TokenHash, token) == nil and without a digest-cache hit: a token that does not match the configured hash is accepted")
+				"true only after bcrypt success or a full-digest cache hit",
+				"the validator returns true on a path without bcrypt.CompareHashAndPassword(TokenHash, token) == nil and without a hit of a cache keyed by the digest of the whole token: a token that does not match the configured hash is accepted")
 		}
-		// cache fields: written only after bcrypt success, with a token-derived value
+		// cache fields: written only after bcrypt success, with the validated token's digest
 		var cfs []*types.Var
 		for f := range cacheFields {
 			cfs = append(cfs, f)
@@ -955,21 +1098,77 @@ func (cx *c24Ctx) ruleR4() {
 		for _, fld := range cfs {
 			n := 0
 			for _, a := range p.FieldAccessesOfKind(fld, kit.FieldStore, kit.FieldAddrUse) {
-				n++
-				key := fmt.Sprintf("%s cache %s write #%d in %s", vname, fld.Name(), n, kit.FuncName(a.Fn))
-				ok := a.Kind == kit.FieldStore && a.Fn == v && kit.G8MustPass(a.Instr, bcryptOK) && fromTok(a.Val)
 				if a.Kind == kit.FieldAddrUse {
-					// taking the address for reading (slice of the array) is fine
 					if _, isSlice := a.Instr.(*ssa.Slice); isSlice {
-						n--
-						continue
+						continue // address taken for reading
 					}
 				}
-				r.Decide(ok, "C24.R4", key, p.Pos(a.Instr.Pos()), "written after bcrypt success with the validated token's digest",
-					"the token cache is written without a preceding bcrypt success (or with a value not derived from the validated token): a later request matching the cache is accepted without ever having been verified")
+				n++
+				key := fmt.Sprintf("%s cache %s write #%d in %s", vname, fld.Name(), n, kit.FuncName(a.Fn))
+				ok := false
+				valOK := func(e *c24TokEnv, val ssa.Value) bool {
+					if c24IsArrayOrSlice(val.Type()) {
+						return e.fullDigest(val)
+					}
+					return e.fromTok(val)
+				}
+				switch {
+				case a.Kind != kit.FieldStore:
+				case a.Fn == v:
+					ok = kit.G8MustPass(a.Instr, bcryptOK) && valOK(env, a.Val)
+				case kit.FuncPkgPath(a.Fn) == kit.PkgPath(c24Pkg) && a.Fn.Parent() == nil:
+					// store helper: every call site lies in the validator behind the bcrypt success
+					// and passes the validated token / its digest
+					sites := p.StaticCallers(a.Fn)
+					ok = len(sites) > 0
+					for _, site := range sites {
+						if site.Parent() != v || !kit.G8MustPass(site, bcryptOK) {
+							ok = false
+							break
+						}
+						sub := &c24TokEnv{tok: map[ssa.Value]bool{}, dig: map[ssa.Value]bool{}}
+						for i, arg := range site.Common().Args {
+							if i >= len(a.Fn.Params) {
+								break
+							}
+							raw := arg
+							if cv, isCv := raw.(*ssa.Convert); isCv {
+								raw = cv.X
+							}
+							switch {
+							case env.tok[raw]:
+								sub.tok[a.Fn.Params[i]] = true
+							case c24IsArrayOrSlice(arg.Type()) && env.fullDigest(arg):
+								sub.dig[a.Fn.Params[i]] = true
+							}
+						}
+						if !valOK(sub, a.Val) {
+							ok = false
+							break
+						}
+					}
+				}
+				r.Decide(ok, "C24.R4", key, p.Pos(a.Instr.Pos()), "written only after bcrypt success, with the validated token's digest",
+					"the token cache is written on a path without a preceding bcrypt success (or with a value that is not the digest of the validated token): a rejected token is remembered and the next request presenting it is accepted without ever having been verified")
 			}
 		}
 	}
+}
+
+// c24FullValue: v is a whole value (no partial slice): a full slice x[:] or a non-slice value.
+func c24FullValue(v ssa.Value) bool {
+	if sl, ok := v.(*ssa.Slice); ok {
+		return sl.Low == nil && sl.High == nil && sl.Max == nil
+	}
+	return true
+}
+
+func c24IsArrayOrSlice(t types.Type) bool {
+	switch t.Underlying().(type) {
+	case *types.Array, *types.Slice:
+		return true
+	}
+	return false
 }
 
 // ---------------------------------------------------------------- R5
@@ -1211,6 +1410,75 @@ func (cx *c24Ctx) ruleR5() {
 				bad+": a disabled endpoint group still acts on requests")
 		}
 		r.Count("enabled_patterns_"+F, nEnabled)
+	}
+	// a group's handler must not be reachable through a handler outside the group
+	ownFlags := map[*ssa.Function]map[string]bool{} // handler body -> flags (=true) it is registered under; "" = unconditional
+	for _, rg := range cx.regs {
+		for _, h := range cx.handlerBodies(rg.handler) {
+			if ownFlags[h] == nil {
+				ownFlags[h] = map[string]bool{}
+			}
+			gated := false
+			for fl, pol := range rg.flags {
+				if pol {
+					ownFlags[h][fl] = true
+					gated = true
+				}
+			}
+			if !gated {
+				if ok404, _ := cx.only404From(h, h.Blocks[0]); !ok404 {
+					ownFlags[h][""] = true
+				}
+			}
+		}
+	}
+	var hs []*ssa.Function
+	for h := range ownFlags {
+		hs = append(hs, h)
+	}
+	sort.Slice(hs, func(i, j int) bool { return hs[i].Pos() < hs[j].Pos() })
+	for _, h := range hs {
+		if ownFlags[h][""] || kit.FuncPkgPath(h) != kit.PkgPath(c24Pkg) {
+			continue
+		}
+		k := 0
+		for _, site := range p.StaticCallers(h) {
+			caller := kit.TopLevel(site.Parent())
+			if caller == h {
+				continue
+			}
+			k++
+			cf := ownFlags[caller]
+			ok := cf != nil && !cf[""]
+			for fl := range cf {
+				if fl != "" && !ownFlags[h][fl] {
+					ok = false
+				}
+			}
+			if cf == nil {
+				// an ordinary helper: acceptable only if all of ITS callers are in the group (one level)
+				ok = true
+				up := p.StaticCallers(caller)
+				if len(up) == 0 {
+					ok = false
+				}
+				for _, s2 := range up {
+					c2 := ownFlags[kit.TopLevel(s2.Parent())]
+					if c2 == nil || c2[""] {
+						ok = false
+						continue
+					}
+					for fl := range c2 {
+						if !ownFlags[h][fl] {
+							ok = false
+						}
+					}
+				}
+			}
+			r.Decide(ok, "C24.R5", fmt.Sprintf("%s invoked from %s #%d", kit.FuncName(h), kit.FuncName(caller), k), p.Pos(site.Pos()),
+				"invoked only from handlers of its own endpoint group",
+				"a handler of a flag-gated endpoint group is also invoked from code outside that group: with the group disabled its action is still reachable through the other route")
+		}
 	}
 	// documented group prefixes are registered only under their flag
 	for _, rg := range cx.regs {
@@ -1486,5 +1754,38 @@ var c24SelfTests = []SelfTest{
 	}},
 	{Name: "rewrite: disabled handler logs before answering 404", Edits: []Edit{
 		{File: c24File, Old: "return func(w http.ResponseWriter, r *http.Request) {\n\t\thttp.NotFound(w, r)\n\t}", New: "return func(w http.ResponseWriter, r *http.Request) {\n\t\tw.Header().Set(\"X-Disabled\", \"1\")\n\t\thttp.Error(w, \"not found\", http.StatusNotFound)\n\t}"},
+	}},
+	// ---- round 2
+	{Name: "cache written whatever the bcrypt outcome", ExpectRule: "C24.R4", ExpectKey: "cache cachedTokenSHA write", Edits: []Edit{
+		{File: c24File, Old: "\tif bcrypt.CompareHashAndPassword([]byte(s.cfg.TokenHash), []byte(token)) != nil {\n\t\treturn false\n\t}\n\n\t// Update cache on success\n\ts.tokenCacheMu.Lock()\n\ts.cachedTokenSHA = tokenSHA\n\ts.tokenCacheValid = true\n\ts.tokenCacheMu.Unlock()\n\n\treturn true", New: "\tok := bcrypt.CompareHashAndPassword([]byte(s.cfg.TokenHash), []byte(token)) == nil\n\ts.tokenCacheMu.Lock()\n\ts.cachedTokenSHA = tokenSHA\n\tif ok {\n\t\ts.tokenCacheValid = true\n\t}\n\ts.tokenCacheMu.Unlock()\n\treturn ok"},
+	}},
+	{Name: "cache store helper called with the bcrypt outcome", ExpectRule: "C24.R4", ExpectKey: "cache cachedTokenSHA write", Edits: []Edit{
+		{File: c24File, Old: "\tif bcrypt.CompareHashAndPassword([]byte(s.cfg.TokenHash), []byte(token)) != nil {\n\t\treturn false\n\t}\n\n\t// Update cache on success\n\ts.tokenCacheMu.Lock()\n\ts.cachedTokenSHA = tokenSHA\n\ts.tokenCacheValid = true\n\ts.tokenCacheMu.Unlock()\n\n\treturn true\n}\n", New: "\tok := bcrypt.CompareHashAndPassword([]byte(s.cfg.TokenHash), []byte(token)) == nil\n\ts.tokenCacheStore(tokenSHA, ok)\n\treturn ok\n}\n\nfunc (s *Server) tokenCacheStore(tokenSHA [32]byte, ok bool) {\n\ts.tokenCacheMu.Lock()\n\tdefer s.tokenCacheMu.Unlock()\n\ts.cachedTokenSHA = tokenSHA\n\tif ok {\n\t\ts.tokenCacheValid = true\n\t}\n}\n"},
+	}},
+	{Name: "rewrite: cache hit and cache store extracted into helpers, store only on success", Edits: []Edit{
+		{File: c24File, Old: "\ts.tokenCacheMu.RLock()\n\tif s.tokenCacheValid && subtle.ConstantTimeCompare(tokenSHA[:], s.cachedTokenSHA[:]) == 1 {\n\t\ts.tokenCacheMu.RUnlock()\n\t\treturn true\n\t}\n\ts.tokenCacheMu.RUnlock()\n", New: "\tif s.tokenCacheHit(tokenSHA) {\n\t\treturn true\n\t}\n"},
+		{File: c24File, Old: "\t// Update cache on success\n\ts.tokenCacheMu.Lock()\n\ts.cachedTokenSHA = tokenSHA\n\ts.tokenCacheValid = true\n\ts.tokenCacheMu.Unlock()\n\n\treturn true\n}\n", New: "\ts.tokenCacheStore(tokenSHA)\n\treturn true\n}\n\nfunc (s *Server) tokenCacheHit(tokenSHA [32]byte) bool {\n\ts.tokenCacheMu.RLock()\n\tdefer s.tokenCacheMu.RUnlock()\n\treturn s.tokenCacheValid && subtle.ConstantTimeCompare(tokenSHA[:], s.cachedTokenSHA[:]) == 1\n}\n\nfunc (s *Server) tokenCacheStore(tokenSHA [32]byte) {\n\ts.tokenCacheMu.Lock()\n\tdefer s.tokenCacheMu.Unlock()\n\ts.cachedTokenSHA = tokenSHA\n\ts.tokenCacheValid = true\n}\n"},
+	}},
+	{Name: "cache compared on a digest prefix only", ExpectRule: "C24.R4", ExpectKey: "true-return", Edits: []Edit{
+		{File: c24File, Old: "subtle.ConstantTimeCompare(tokenSHA[:], s.cachedTokenSHA[:]) == 1", New: "subtle.ConstantTimeCompare(tokenSHA[:4], s.cachedTokenSHA[:4]) == 1"},
+	}},
+	{Name: "cache keyed by the digest of a token prefix", ExpectRule: "C24.R4", ExpectKey: "true-return", Edits: []Edit{
+		{File: c24File, Old: "tokenSHA := sha256.Sum256([]byte(token))", New: "tokenSHA := sha256.Sum256([]byte(token[:min(8, len(token))]))"},
+	}},
+	{Name: "group endpoint registered under either of two flags", ExpectRule: "C24.R5", ExpectKey: "of /api/mesh-test", Edits: []Edit{
+		{File: c24File, Old: "\t\tmux.HandleFunc(\"/api/mesh-test\", s.handleMeshTest)\n\t} else {\n\t\tmux.HandleFunc(\"/api/\", disabledHandler(\"dashboard_api\"))\n\t}\n", New: "\t} else {\n\t\tmux.HandleFunc(\"/api/\", disabledHandler(\"dashboard_api\"))\n\t}\n\tif cfg.EnableDashboard || cfg.EnableRemoteAPI {\n\t\tmux.HandleFunc(\"/api/mesh-test\", s.handleMeshTest)\n\t}\n"},
+	}},
+	{Name: "group endpoint registered under another group's flag", ExpectRule: "C24.R5", ExpectKey: "of /api/nodes", Edits: []Edit{
+		{File: c24File, Old: "\t\tmux.HandleFunc(\"/api/nodes\", s.handleNodes)\n", New: ""},
+		{File: c24File, Old: "\t\tmux.HandleFunc(\"/wake\", s.handleWake)\n", New: "\t\tmux.HandleFunc(\"/wake\", s.handleWake)\n\t\tmux.HandleFunc(\"/api/nodes\", s.handleNodes)\n"},
+	}},
+	{Name: "dashboard handler reachable through the remote API dispatcher", ExpectRule: "C24.R5", ExpectKey: "invoked from", Edits: []Edit{
+		{File: c24File, Old: "\t\tcase parts[1] == \"icmp\":\n", New: "\t\tcase parts[1] == \"mesh-test\":\n\t\t\ts.handleMeshTest(w, r)\n\t\t\treturn\n\t\tcase parts[1] == \"icmp\":\n"},
+	}},
+	{Name: "middleware rewrites the path after the exemption decision", ExpectRule: "C24.R1", ExpectKey: "request URL rewritten", Edits: []Edit{
+		{File: c24File, Old: "if authExemptPaths[r.URL.Path] {\n\t\t\tnext.ServeHTTP(w, r)", New: "if authExemptPaths[r.URL.Path] {\n\t\t\tif p := r.Header.Get(\"X-Original-URI\"); p != \"\" {\n\t\t\t\tr.URL.Path = p\n\t\t\t}\n\t\t\tnext.ServeHTTP(w, r)"},
+	}},
+	{Name: "clients remembered by address skip the token check", ExpectRule: "C24.R1", ExpectKey: "delegation", Edits: []Edit{
+		{File: c24File, Old: "\t\ttoken := extractBearerToken(r)\n", New: "\t\tif r.RemoteAddr == s.cfg.Address {\n\t\t\tnext.ServeHTTP(w, r)\n\t\t\treturn\n\t\t}\n\t\ttoken := extractBearerToken(r)\n"},
 	}},
 }
